@@ -211,7 +211,40 @@ class Ctx:
                     raise Broken(f'theorem {t} depends on axioms not on the allow-list: {sorted(names - AXIOM_ALLOW)}', b)
         self.discharged = nq
         self.theorems = thms
+        if self.tier == 'thorough':
+            self.coqchk_all()
         self.proofs_ok = True
+
+    def coqchk_all(self):
+        """thorough tier: the independent checker re-checks the compiled development (every Props module and everything it depends on) and
+        lists the axioms it relies on; must be `Axioms: <none>`.  One run serves all properties (cached on the content of all .v files)."""
+        vfiles = [l.strip() for l in open(os.path.join(COQ, '_CoqProject')) if l.strip().endswith('.v') and not l.strip().startswith('Extract/')]
+        h = hashlib.sha256()
+        for f in sorted(vfiles): h.update(f.encode()); h.update(open(os.path.join(COQ, f), 'rb').read())
+        cdir = os.path.join(BUILD, 'cache'); os.makedirs(cdir, exist_ok=True)
+        cfile = os.path.join(cdir, f'coqchk-{h.hexdigest()[:20]}.txt')
+        with Lock('coqchk'):
+            if not os.path.exists(cfile):
+                props = sorted(f for f in vfiles if f.startswith('Props/'))
+                self.make([f + 'o' for f in props])
+                mods = ['JV.' + f[:-2].replace('/', '.') for f in props]
+                t0 = time.time()
+                try:
+                    rc, out, err = sh(['bash', '-c', 'ulimit -s unlimited 2>/dev/null; coqchk -o -silent -Q . JV ' + ' '.join(mods)], cwd=COQ, timeout=5400)
+                except subprocess.TimeoutExpired:
+                    raise Broken('coqchk timed out', ' '.join(mods))
+                txt = (out + err)
+                open(cfile + '.tmp', 'w').write(f'rc={rc} seconds={time.time() - t0:.0f} modules={len(mods)}\n' + txt[-4000:])
+                os.replace(cfile + '.tmp', cfile)
+                for f in os.listdir(cdir):
+                    if f.startswith('coqchk-') and f != os.path.basename(cfile):
+                        try: os.remove(os.path.join(cdir, f))
+                        except OSError: pass
+            txt = open(cfile).read()
+        head = txt.split('\n', 1)[0]
+        self.cov['coqchk'] = {'summary': head, 'axioms': 'none' if re.search(r'\* Axioms: <none>', txt) else 'SEE LOG'}
+        if not head.startswith('rc=0') or not re.search(r'\* Axioms: <none>', txt) or not re.search(r'type-in-type: <none>', txt) or not re.search(r'positivity is assumed: <none>', txt) or not re.search(r'unsafe \(co\)fixpoints: <none>', txt):
+            raise Broken('coqchk does not accept the compiled development, or it relies on axioms / unchecked definitions', txt[-3000:])
 
     # ------------------------------------------------------------------ extracted model
     def build_model(self):
